@@ -138,7 +138,7 @@ def _merge(tot, a):
     tot["errors"].extend(a["errors"])
 
 
-def fresh_replay(pid, path, timeout=300):
+def fresh_replay(pid, path, timeout=900):
     """Replay a file in a brand-new interpreter. Returns (violation kind or None, output)."""
     env = dict(os.environ, PYTHONHASHSEED="0")
     p = subprocess.run([sys.executable, "-X", "faulthandler", "-c",
@@ -232,6 +232,8 @@ def main_check(pid, tier, replay=None):
         futs = [ex.submit(_work, pid, seed, tier, c, modes) for c in chunks]
         try:
             for fu in as_completed(futs, timeout=cap_s + 120):
+                if fu.cancelled():
+                    continue       # not started before the wall cap: counted as "not executed", never as an error
                 try:
                     _merge(tot, fu.result())
                 except Exception as e:  # noqa
